@@ -228,7 +228,14 @@ def run_cli(case, mode=None, cpus=1, launcher=None, env_extra=None, timeout=600,
         if not (workdir and os.path.exists(refp)):
             _write_inputs(case, d)
         outfile = outfile_of(case, outname)
-        outp = os.path.join(d, outfile)
+        # the CLI is started in the case directory and given the output as a bare file name (a path without a directory
+        # part); the inputs are absolute paths, or - with case["stdin_query"] - the query file arrives on a pipe ("-q -")
+        outp = outfile
+        stdin_text = None
+        if case.get("stdin_query") and not case.get("same_file"):
+            with open(qryp) as f:
+                stdin_text = f.read()
+            qryp = "-"
         argv = argv_of(case, refp, qryp, outp, mode, cpus)
         env = dict(os.environ, PYTHONHASHSEED=os.environ.get("PYTHONHASHSEED", "0"), PYTHONDONTWRITEBYTECODE="1",
                    OMP_NUM_THREADS="1", OPENBLAS_NUM_THREADS="1", VERIF_REPO=REPO_DIR)
@@ -238,7 +245,7 @@ def run_cli(case, mode=None, cpus=1, launcher=None, env_extra=None, timeout=600,
         else:
             cmd = [sys.executable, "-c", CLI_SNIPPET.format(repo=REPO_DIR)] + argv
         try:
-            p = subprocess.run(cmd, env=env, capture_output=True, text=True, timeout=timeout, cwd=d)
+            p = subprocess.run(cmd, env=env, capture_output=True, text=True, timeout=timeout, cwd=d, input=stdin_text)
         except subprocess.TimeoutExpired:
             raise HarnessError(f"CLI run exceeded {timeout}s")
         run.returncode = p.returncode
